@@ -300,32 +300,6 @@ class Recorder:
         sampler.sample_points = wrapped
 
 
-class StaticTap:
-    """while active, records every StaticSampler.sample_points call made anywhere (nesting depth, the
-    sampler object, the returned points) — used to see on which points a constructor pre-evaluates"""
-
-    def __enter__(self):
-        common.use_repo()
-        from torchphysics.problem.samplers.sampler_base import StaticSampler
-        self.cls, self.orig, self.calls, self.depth = StaticSampler, StaticSampler.sample_points, [], 0
-        tap = self
-
-        def wrapped(sampler_self, *a, **k):
-            tap.depth += 1
-            try:
-                pts = tap.orig(sampler_self, *a, **k)
-            finally:
-                tap.depth -= 1
-            tap.calls.append((tap.depth, sampler_self, points_record(pts)))
-            return pts
-        StaticSampler.sample_points = wrapped
-        return self
-
-    def __exit__(self, *exc):
-        self.cls.sample_points = self.orig
-        return False
-
-
 def points_record(pts):
     """(space as [[name, dim]], rows as exact Fractions) of a Points object (any batch shape, flattened)"""
     space = [[n, int(pts.space[n])] for n in pts.space]
